@@ -32,6 +32,9 @@ import (
 
 const defaultSeed = 20261003
 
+// distinctCap bounds the driver's memory for the distinct-hash sets (about 1 GB per measure at the cap).
+const distinctCap = 20000000
+
 var verifDir = "/verif"
 var repoDir = "/repo"
 
@@ -513,6 +516,7 @@ func cmdCheck(args []string) int {
 	infraMsg := ""
 	deadline := start.Add(time.Duration(maxWall) * time.Second)
 	widx := 0
+	capped := false
 	inflight := 0
 	var wg sync.WaitGroup
 	chunkTimeout := time.Duration(p.ChunkTimeoutSecs) * time.Second
@@ -553,18 +557,20 @@ func cmdCheck(args []string) int {
 					merged.NonTrivial += a.NonTrivial
 					merged.SimNanos += a.SimNanos
 					merged.Yields += a.Yields
-					for _, v := range a.Workloads {
-						wl[v] = true
+					// distinct counts are kept exactly up to distinctCap entries per measure; beyond that they are lower bounds
+					addCapped := func(m map[uint64]bool, vs []uint64) {
+						for _, v := range vs {
+							if len(m) >= distinctCap {
+								capped = true
+								return
+							}
+							m[v] = true
+						}
 					}
-					for _, v := range a.Scheds {
-						sch[v] = true
-					}
-					for _, v := range a.States {
-						sts[v] = true
-					}
-					for _, v := range a.Pairs {
-						prs[v] = true
-					}
+					addCapped(wl, a.Workloads)
+					addCapped(sch, a.Scheds)
+					addCapped(sts, a.States)
+					addCapped(prs, a.Pairs)
 					for k, v := range a.Probes {
 						merged.Probes[k] += v
 					}
@@ -662,7 +668,7 @@ func cmdCheck(args []string) int {
 	}
 	wall := time.Since(start).Seconds()
 	if os.Getenv("VERIF_NOEVIDENCE") == "" {
-		writeEvidence(id, p, tier, seed, merged, nW, nS, nSt, nP, b, wall, nviol, kn)
+		writeEvidence(id, p, tier, seed, merged, nW, nS, nSt, nP, b, wall, nviol, kn, capped)
 	}
 	fmt.Printf("verif: %s %s: runs=%d executions=%d nontrivial=%d distinct(workloads=%d interleavings=%d states=%d nontrivial-pairs=%d) violations=%d wall=%.1fs\n",
 		id, tier, merged.Runs, merged.Evals, merged.NonTrivial, nW, nS, nSt, nP, nviol, wall)
@@ -762,7 +768,7 @@ func cmdReplay(args []string) int {
 
 // ---------------------------------------------------------------- evidence
 
-func writeEvidence(id string, p propInfo, tier string, seed uint64, m *agg, nW, nS, nSt, nP int, b *built, wall float64, nviol int, kn []known) {
+func writeEvidence(id string, p propInfo, tier string, seed uint64, m *agg, nW, nS, nSt, nP int, b *built, wall float64, nviol int, kn []known, capped bool) {
 	zero := []string{}
 	for _, name := range p.Probes {
 		if m.Probes[name] == 0 {
